@@ -335,21 +335,22 @@ def options_for(console, opts, w):
     return o
 
 
-def real_text(console, e, opts, w):
-    """the concatenated text of list(console.render(obj, options)) (control segments dropped), or err:…"""
+def real_text(console, e, opts, w, obj=None):
+    """the concatenated text of list(console.render(obj, options)) (control segments dropped), or err:…
+    `obj` = an already built object to render AGAIN (state kept between renderings would show as a mismatch)"""
 
     def go():
-        segs = list(console.render(build(e), options_for(console, opts, w)))
+        segs = list(console.render(build(e) if obj is None else obj, options_for(console, opts, w)))
         return "".join(s.text for s in segs if not s.is_control)
 
     return guarded(go)
 
 
-def real_measure(console, e, w):
+def real_measure(console, e, w, obj=None):
     from rich.measure import Measurement
 
     def go():
-        m = Measurement.get(console, build(e), w)
+        m = Measurement.get(console, build(e) if obj is None else obj, w)
         return (m.minimum, m.maximum)
 
     return guarded(go)
